@@ -293,8 +293,47 @@ def check_C05(ctx):
                                    "visitors stop at their arity, struct visitors ignore unknown fields and reject duplicates)"])
 
 
+# ------------------------------------------------------------------------------------------------
+# C06
+# ------------------------------------------------------------------------------------------------
+def check_C06(ctx):
+    q = ctx.quick()
+    subprocess.run(["python3", os.path.join(vlib.ROOT, "tools", "gen_scalar_tables.py")], check=True, capture_output=True)
+    cases = ctx.path("cases.ndjson")
+    run_mc(ctx, "MC_Scalars", {}, ["InvSelfCheck", "InvWidthLaws", "InvBoolStrict", "EmitCase"], workers=4, timeout=3000,
+           cases_out=cases, label="MC_Scalars")
+    b64cases = ctx.path("b64cases.ndjson")
+    run_mc(ctx, "MC_Base64", dict(MaxLen=4 if q else 5), ["InvWhitespaceIrrelevant", "InvLength", "InvBytes", "EmitCase"], workers=8,
+           timeout=3000, cases_out=b64cases, label="MC_Base64")
+    ctx.exhaustive = True
+    recs = ctx.path("recs.ndjson")
+    st = run_vh(ctx, ["c06", "--cases", cases, "--out", recs, "--random", 500 if q else 20000, "--seed", ctx.seed, "--full", 0 if q else 1])
+    ctx.evaluations += st["records"]
+    ctx.distinct_nontrivial += st["nontrivial"]
+    ctx.samples += st["samples"]
+    mism = run_tv(ctx, "TV_Scalars", recs, timeout=3000, shards=12)
+    classify_mismatches(ctx, mism, recs, {}, "scalar interpretation differs from the Scalars.tla table")
+    b64recs = ctx.path("b64recs.ndjson")
+    st2 = run_vh(ctx, ["c06b64", "--cases", b64cases, "--out", b64recs])
+    ctx.evaluations += st2["records"]
+    ctx.distinct_nontrivial += st2["nontrivial"]
+    ctx.notes["base64_decodable_cases"] = st2["nontrivial"]
+    mism2 = run_tv(ctx, "TV_Base64", b64recs, timeout=3000, label="TV_Base64")
+    classify_mismatches(ctx, mism2, b64recs, {}, "!!binary decoding differs from Base64!Decode")
+    return finish(ctx, "model_checking",
+                  "cells: token corpus (every integer-width boundary +-1 in radix 2/8/10/16 with signs, prefixes in both cases, "
+                  "separators, legacy octal, bool/null/float spellings and look-alikes; ~480 tokens, generated by "
+                  "tools/gen_scalar_tables.py) x styles plain/double/single x tags none/!!str/!/!!int/!!null x option vectors "
+                  "(legacy_octal, strict_booleans, no_schema) x 10 integer targets, bool, String, f64 and the untyped target; plus "
+                  "random digit strings around random boundaries; base64: all strings up to 4/5 characters over a 10-character "
+                  "adversarial alphabet; every cell counts (each is a distinct table entry)",
+                  ASSUME_COMMON + ["finite float values are delegated to Rust's str::parse::<f64> (supplied in the record, compared bit "
+                                   "for bit); Rust's integer formatting in radix 2/8/10/16 is used to project observed values"])
+
+
 CHECKS = {
     "C02": check_C02,
+    "C06": check_C06,
     "C05": check_C05,
     "C11": check_C11,
     "C07": check_C07,
